@@ -13,7 +13,7 @@ from vf import foamdict, geom, hexconv, util
 from vf import xc16_ref as xr
 
 ID = "C16"
-BUDGET = {"quick": 4200, "thorough": 110000}
+BUDGET = {"quick": 8000, "thorough": 250000}
 SOFT = {"quick": 40.0, "thorough": 900.0}
 REQUIRED = [
     "kind:discrete", "kind:linear", "kind:spline", "kind:analytic", "kind:line", "kind:circle",
@@ -290,9 +290,7 @@ def _ref_length(env, a, c):
     arc distance on the polyline between the REAL curve's points for a and c (both verified to lie on it)"""
     ref, lib = env["ref"], env["lib"]
     if env["kind"] == "linear":
-        sa = xr.polyline_project(ref.pts, ref.cum, np.asarray(lib.get_point(a), dtype=float))[0]
-        sc = xr.polyline_project(ref.pts, ref.cum, np.asarray(lib.get_point(c), dtype=float))[0]
-        return abs(sa - sc)
+        return abs(ref.coord(a, lib.get_point(a)) - ref.coord(c, lib.get_point(c)))
     return ref.length(a, c)
 
 
@@ -405,22 +403,22 @@ def _judge_discretize(ctx, env, probes):
 
 
 def _on_curve_in_order(ctx, env, pts, a, c, tol, mech, what):
-    """pts (first belongs to parameter a, last to c) must lie on the reference, within the range and be monotone"""
+    """pts[0] is the curve point of parameter a, pts[-1] that of c (established by the caller); the points in between
+    must lie on the part of the reference curve between the two parameters and follow each other from a to c"""
     ref = env["ref"]
-    ca, cc = ref.coord(a), ref.coord(c)
+    ca, cc = ref.coord(a, pts[0]), ref.coord(c, pts[-1])
     lo, hi = min(ca, cc), max(ca, cc)
     slack = 1e-3 * (hi - lo) + 1e-9 * (abs(lo) + abs(hi) + 1)
-    coords = []
-    for p in pts:
-        s, d = ref.project(p)
-        if d > tol:
-            ctx.violation(mech + ":off-curve", f"{_desc(env)}: {what}: point {np.asarray(p).tolist()} is {d:.3e} off the curve")
-            return False
-        if not (lo - slack <= s <= hi + slack):
-            ctx.violation(mech + ":outside-range", f"{_desc(env)}: {what}: point {np.asarray(p).tolist()} sits at curve coordinate "
-                                                   f"{s} outside [{lo}, {hi}] spanned by the two end parameters {a}, {c}")
+    coords = [ca]
+    for p in pts[1:-1]:
+        s, d = ref.project(p, lo - slack, hi + slack)
+        if not d <= tol:
+            ctx.violation(mech + ":not-on-curve-between-parameters",
+                          f"{_desc(env)}: {what}: point {np.asarray(p).tolist()} is {d:.3e} away from the part of the curve "
+                          f"between the two end parameters {a}, {c}")
             return False
         coords.append(s)
+    coords.append(cc)
     sign = 1 if cc >= ca else -1
     steps = [sign * (coords[i + 1] - coords[i]) for i in range(len(coords) - 1)]
     if any(st < -slack for st in steps):
@@ -492,8 +490,12 @@ def _judge_edge(ctx, env, e, spacing):
         return
     # resolvable vertices only (the closest-parameter clause is judged on its own; here it is a prerequisite)
     for p in (pa, pb):
-        if kind != "discrete" and ref.profile(p)[1] < RES_WIDTH:
-            ctx.count("edge:skipped-vertex-not-resolvable")
+        if kind == "discrete":
+            resolvable = int(np.count_nonzero(np.linalg.norm(ref.pts - p, axis=1) < 1e-6 * ref.size)) == 1
+        else:
+            resolvable = ref.profile(p)[1] >= RES_WIDTH
+        if not resolvable:
+            ctx.count("edge:skipped-vertex-not-resolvable")  # e.g. the seam of a closed curve
             return
     corners = xr.place_hex(e["k"], e["swap"], pa, pb, e["seed"], e["w"], e["h"])
     i, j = hexconv.EDGES[e["k"]]
